@@ -398,7 +398,7 @@ def shard(ctx):
                         p_unary=rng.choice([0, 0.1, 0.3]),
                         moves=rng.choice([0, 0, 1, 2, 4, 8]),
                         p_root_unary=rng.choice([0, 0.3]))
-        gen.spice(rng, spec, ['cat-keyword', 'cat-apostrophe', 'pos-apostrophe', 'cat-digit-first', 'cat-at-x', 'cat-punct-char', 'pos-punct-char', 'pos-decorated', 'word-unicode', 'word-typographic-punct', 'word-keyword', 'word-unispace', 'word-percent'],
+        gen.spice(rng, spec, ['cat-keyword', 'cat-apostrophe', 'pos-apostrophe', 'cat-digit-first', 'cat-at-x', 'cat-punct-char', 'pos-punct-char', 'pos-decorated', 'word-unicode', 'word-typographic-punct', 'word-keyword', 'word-unispace', 'word-percent', 'cat-decorated', 'cat-digit-last', 'edge-odd', 'pos-keyword'],
                   root_labels=['TOP', 'ROOT', 'S', 'VROOT+S'])
         run_tree(ctx, spec, rng)
         ctx.stratum('random')
